@@ -48,15 +48,17 @@ fn mapfile_text(lines: &[(i64, String)]) -> String {
 /// The harness' own bookkeeping of a table (independent of the implementation): which character
 /// names which bit last, and which bit is printed with which character.  Used to *classify*
 /// generated tables (does a name end up on two bits?) and failures, never to compute expected output.
-struct TableSim { by_flag: [char; 8], by_name: std::collections::BTreeMap<char, usize>, valid: bool }
+struct TableSim { by_flag: [char; 8], by_name: std::collections::BTreeMap<char, usize>, valid: bool, dup: bool }
 
 fn simulate(lines: &[(i64, String)]) -> TableSim {
-    let mut t = TableSim { by_flag: ['0', '1', '2', '3', '4', '5', '6', '7'], by_name: Default::default(), valid: true };
+    let mut t = TableSim { by_flag: ['0', '1', '2', '3', '4', '5', '6', '7'], by_name: Default::default(), valid: true, dup: false };
     for i in 0..8 { t.by_name.insert(t.by_flag[i], i); }
     for (i, s) in lines {
         let cs: Vec<char> = s.chars().collect();
         let ok = (0..8).contains(i) && s.len() == 2 && cs.len() == 2 && cs[0].is_ascii_alphanumeric() && (cs[1] == '+' || cs[1] == '-');
         if !ok { t.valid = false; continue; }
+        // a name that already names another flag is rejected (since the fix of `diff-flag-name-at-two-indices`)
+        if (0..8).any(|k| k != *i as usize && t.by_flag[k] == cs[0]) { t.valid = false; t.dup = true; continue; }
         t.by_flag[*i as usize] = cs[0];
         t.by_name.insert(cs[0], *i as usize);
     }
@@ -68,9 +70,7 @@ impl TableSim {
     fn inv(&self) -> bool { (0..8).all(|i| self.by_name.get(&self.by_flag[i]) == Some(&i)) }
 }
 
-fn table_signature(lines: &[(i64, String)]) -> &'static str {
-    if simulate(lines).inv() { "diff-label-does-not-parse-back" } else { "diff-flag-name-at-two-indices" }
-}
+fn table_signature(_lines: &[(i64, String)]) -> &'static str { "diff-label-does-not-parse-back" }
 
 fn with_table<T>(lines: &[(i64, String)], f: impl FnOnce(&mut truth::Truth) -> Result<T, truth::ErrorReported>) -> tc::Outcome<T> {
     tc::with_truth(Format::Ecl, GAME, &[mapfile_text(lines)], f)
@@ -252,10 +252,6 @@ fn value_at(a: &Sexp, d: usize) -> Option<i32> {
     }
 }
 
-fn has_nested(a: &Sexp) -> bool {
-    a.head() == Some("sw") && a.args().iter().any(|c| c.head() == Some("sw"))
-}
-
 fn switch_len(args: &[Sexp]) -> Option<usize> { args.iter().find(|a| a.head() == Some("sw")).map(|a| a.args().len()) }
 
 fn swspec_case(lines: &Sexp, label: &Sexp, args: &[Sexp]) -> Sexp {
@@ -275,8 +271,7 @@ fn swspec_case(lines: &Sexp, label: &Sexp, args: &[Sexp]) -> Sexp {
     let Some((instrs, aux, mask)) = o.value else { return Sexp::app("skip", vec![Sexp::str(diag_class(&o.diagnostics))]); };
     let copies: Vec<&RawInstr> = instrs.iter().filter(|i| (1001..=1003).contains(&i.opcode)).collect();
     let n = switch_len(args).unwrap_or(0);
-    let nested = args.iter().any(has_nested);
-    let sig = if nested { "diff-switch-nested-switch-expanded-by-outer-cases-only" } else { "diff-switch-wrong-copy-for-difficulty" };
+    let sig = "diff-switch-wrong-copy-for-difficulty";
     let src = switch_source(label, args).replace('\n', " ");
     for c in &copies {
         if c.difficulty & aux != mask & aux {
@@ -339,11 +334,11 @@ fn gen_lines(rng: &mut Rng) -> Vec<(i64, String)> {
 
 /// a table satisfying the invariant (rejection sampling; the empty table always qualifies)
 fn gen_inv_table(rng: &mut Rng) -> Vec<(i64, String)> {
-    for _ in 0..200 { let l = gen_lines(rng); if simulate(&l).inv() { return l; } }
+    for _ in 0..200 { let l = gen_lines(rng); let t = simulate(&l); if t.valid && t.inv() { return l; } }
     vec![]
 }
 
-/// a table in which some name ends up on two bits
+/// a table with a line that gives a name to a second bit (must be rejected)
 fn gen_dup_table(rng: &mut Rng) -> Vec<(i64, String)> {
     loop {
         let mut l = gen_inv_table(rng);
@@ -352,7 +347,7 @@ fn gen_dup_table(rng: &mut Rng) -> Vec<(i64, String)> {
             1 => { let i = rng.below(8) as i64; let j = (i + 1 + rng.below(7) as i64) % 8; l.push((i, format!("{j}-"))); },   // digit name of another bit
             _ => { let c = *rng.pick(NAME_POOL) as char; l.push((rng.below(8) as i64, format!("{c}+"))); l.push((rng.below(8) as i64, format!("{c}-"))); },
         }
-        if !simulate(&l).inv() { return l; }
+        if simulate(&l).dup { return l; }
     }
 }
 
@@ -447,26 +442,26 @@ impl Prop for C14 {
         "table: for all 256 masks, (mask_to_diff_label(m), parse_diff_string(label)) of the real DiffFlagDefs filled from a user mapfile == Lean (`Diff.label`, `Diff.parse`) on `applyLines defaultDefs`; parse: parse_diff_string == `Diff.parse` incl. error class; switch/assign: (difficulty byte, argument values) of the instructions the real TH06 ECL compiler emits for a statement with difficulty switches == Lean `Diff.expand` / `Diff.assignCopies`; unit: select_diff_switch_case / explicit_difficulty_cases / explicit_case_bitmasks == `selectCase` / `explicitCases` / `caseRanges`"
     }
     fn rule(&self) -> &'static str {
-        "tables: the bundled th06/th08 tables, all-default-on, interleaved aux/difficulty bits, random tables of 0-8 `!difficulty_flags` lines over 22 names (kept in the main stream only if the name->bit->name invariant holds; tables where a name ends up on two bits form the separately tagged stream `table-name-at-two-indices`), malformed lines (index 8/-1, bad name, bad sign, wrong length, two-byte character); every table x all 256 masks (exhaustive in the mask).  parse: strings over the table's names, `+ - *`, unknown and invalid characters.  switch: 1-3 arguments, 1-3 switches of 2-8 cases with holes, under no label / `*` / random labels incl. `-aux`; separate streams for nested switches, mismatched lengths and 9 cases.  non-trivial = table or statement with at least one switch; distinct by case text"
+        "tables: the bundled th06/th08 tables, all-default-on, interleaved aux/difficulty bits, random tables of 0-8 `!difficulty_flags` lines over 22 names (main stream: accepted tables; tables with a line naming a second bit with an existing name form the tagged stream `table-name-at-two-indices` and must be rejected with a diagnostic), malformed lines (index 8/-1, bad name, bad sign, wrong length, two-byte character); every table x all 256 masks (exhaustive in the mask).  parse: strings over the table's names, `+ - *`, unknown and invalid characters.  switch: 1-3 arguments, 1-3 switches of 2-8 cases with holes, under no label / `*` / random labels incl. `-aux`; separate streams for nested switches, mismatched lengths and 9 cases.  non-trivial = table or statement with at least one switch; distinct by case text"
     }
     fn theorems(&self) -> &'static [&'static str] {
-        &["TruthModel.C14.label_parse", "TruthModel.C14.inv_default", "TruthModel.C14.defineFlag_inv", "TruthModel.C14.inv_not_preserved",
-          "TruthModel.C14.expand_exactly_one_checked", "TruthModel.C14.nested_switch_wrong", "TruthModel.C14.expand_exactly_one_full_false"]
+        &["TruthModel.C14.label_parse", "TruthModel.C14.label_parse_mapfile", "TruthModel.C14.reachable_inv", "TruthModel.C14.defineFromMapfile_inv",
+          "TruthModel.C14.expand_exactly_one_full", "TruthModel.C14.selArg_stable", "TruthModel.C14.assign_exactly_one"]
     }
 
     fn gen(&self, tier: Tier, rng: &mut Rng) -> Vec<Case> {
         let scale = if tier == Tier::Quick { 1 } else { 40 };
         let mut out = vec![];
-        // the Lean witnesses, replayed on the implementation
+        // the inputs of the former findings (fixed): the tables must be rejected, the nested switch must expand per difficulty
         let w1 = vec![(0i64, "E-".to_string()), (1, "E-".to_string())];
         let w2 = vec![(0i64, "1-".to_string())];
         for w in [&w1, &w2] {
-            out.push(Case::corr(Sexp::app("table", vec![lines_sexp(w)])).tag("witness-name-at-two-indices"));
-            out.push(Case::search(Sexp::app("file", vec![lines_sexp(w)])).tag("witness-name-at-two-indices"));
+            out.push(Case::corr(Sexp::app("table", vec![lines_sexp(w)])).tag("former-witness-name-at-two-indices"));
+            out.push(Case::search(Sexp::app("file", vec![lines_sexp(w)])).tag("former-witness-name-at-two-indices"));
         }
         let wn = crate::sexp::parse("(switch () none (sw (v 1) (sw (v 2) (v 3) (v 4) (v 5)) _ _))").unwrap();
-        out.push(Case::corr(wn.clone()).tag("witness-nested-switch"));
-        out.push(Case::search(Sexp::app("swspec", wn.args().to_vec())).tag("witness-nested-switch"));
+        out.push(Case::corr(wn.clone()).tag("former-witness-nested-switch"));
+        out.push(Case::search(Sexp::app("swspec", wn.args().to_vec())).tag("former-witness-nested-switch"));
 
         // tables
         for k in 0..FIXED_TABLES.len() {
@@ -490,7 +485,7 @@ impl Prop for C14 {
         }
         // parse
         for _ in 0..600 * scale {
-            let l = if rng.chance(1, 2) { fixed_table(rng.below(FIXED_TABLES.len())) } else { gen_lines(rng) };
+            let l = if rng.chance(1, 2) { fixed_table(rng.below(FIXED_TABLES.len())) } else if rng.chance(1, 8) { gen_lines(rng) } else { gen_inv_table(rng) };
             let s = gen_parse_string(rng, &l);
             out.push(Case::corr(Sexp::app("parse", vec![lines_sexp(&l), Sexp::str(s)])).tag("parse"));
         }
@@ -504,13 +499,14 @@ impl Prop for C14 {
             out.push(Case::search(Sexp::app("swspec", v.clone())).tag("swspec-flat"));
             if i % 5 == 0 { out.push(Case::search(Sexp::app("swrt", v)).tag("swrt-flat")); }
         }
-        for _ in 0..300 * scale {
+        for i in 0..300 * scale {
             let l = table_for_switch(rng);
             let label = gen_label(rng, &l);
             let args = gen_switch_args(rng, true);
             let mut v = vec![lines_sexp(&l), label]; v.extend(args);
             out.push(Case::corr(Sexp::app("switch", v.clone())).tag("switch-nested"));
-            out.push(Case::search(Sexp::app("swspec", v)).tag("swspec-nested"));
+            out.push(Case::search(Sexp::app("swspec", v.clone())).tag("swspec-nested"));
+            if i % 5 == 0 { out.push(Case::search(Sexp::app("swrt", v)).tag("swrt-nested")); }
         }
         for _ in 0..60 * scale {
             // malformed: two switch lengths in one statement, or nine cases
@@ -567,6 +563,10 @@ impl Prop for C14 {
     fn judge(&self, case: &Sexp, result: &Sexp) -> Option<Failure> {
         if case.head() == Some("table") && result.head() == Some("ok") {
             let lines = lines_of(&case.args()[0]);
+            if simulate(&lines).dup {
+                return Some(Failure { signature: "diff-flag-name-at-two-indices".to_string(),
+                    what: format!("table {} gives one name to two flags and is accepted", lines_sexp(&lines)) });
+            }
             for (m, e) in result.args().iter().enumerate() {
                 let e = e.as_list();
                 let back = match &e[1] { Sexp::Atom(s) => s.parse::<i64>().ok(), _ => None };
